@@ -6,6 +6,7 @@ package simsync
 
 import (
 	"sync"
+	"sync/atomic"
 
 	"verifsim/simrt"
 )
@@ -41,8 +42,17 @@ type Pool struct {
 	New func() any
 
 	mu   sync.Mutex
-	free []any
+	free []*poolItem
 	reg  bool
+}
+
+// poolItem: the happens-before relation the race detector gets to see is the one of the real sync.Pool - a Put
+// happens before the Get that returns the same object, and nothing else. The free list and its lock are the
+// simulator's own and stay invisible to the detector (an earlier version used a plain mutex here: every Get and Put of
+// every task was then ordered with every other, which hid races between instances that merely recycle samples).
+type poolItem struct {
+	x  any
+	hb atomic.Int32
 }
 
 var (
@@ -52,18 +62,45 @@ var (
 
 func (p *Pool) Get() any {
 	simrt.Yield(sitePool)
+	if it := p.pop(); it != nil {
+		it.hb.Load() // acquire: pairs with the Store of the Put that published this object
+		return it.x
+	}
+	if p.New != nil {
+		return p.New()
+	}
+	return nil
+}
+
+//go:norace
+func (p *Pool) pop() *poolItem {
+	simrt.RaceDisable()
+	defer simrt.RaceEnable()
 	p.mu.Lock()
-	var x any
-	if n := len(p.free); n > 0 {
-		x = p.free[n-1]
-		p.free[n-1] = nil
-		p.free = p.free[:n-1]
+	defer p.mu.Unlock()
+	n := len(p.free)
+	if n == 0 {
+		return nil
 	}
-	p.mu.Unlock()
-	if x == nil && p.New != nil {
-		x = p.New()
+	it := p.free[n-1]
+	p.free[n-1] = nil
+	p.free = p.free[:n-1]
+	return it
+}
+
+//go:norace
+func (p *Pool) push(it *poolItem) {
+	simrt.RaceDisable()
+	defer simrt.RaceEnable()
+	p.mu.Lock()
+	defer p.mu.Unlock()
+	if !p.reg {
+		p.reg = true
+		poolsMu.Lock()
+		pools = append(pools, p)
+		poolsMu.Unlock()
 	}
-	return x
+	p.free = append(p.free, it)
 }
 
 func (p *Pool) Put(x any) {
@@ -71,15 +108,9 @@ func (p *Pool) Put(x any) {
 		return
 	}
 	simrt.Yield(sitePool)
-	p.mu.Lock()
-	if !p.reg {
-		p.reg = true
-		poolsMu.Lock()
-		pools = append(pools, p)
-		poolsMu.Unlock()
-	}
-	p.free = append(p.free, x)
-	p.mu.Unlock()
+	it := &poolItem{x: x}
+	it.hb.Store(1) // release
+	p.push(it)
 	simrt.Yield(sitePool)
 }
 
@@ -90,11 +121,18 @@ func ResetPools() {
 	pools = nil
 	poolsMu.Unlock()
 	for _, p := range ps {
-		p.mu.Lock()
-		p.free = nil
-		p.reg = false
-		p.mu.Unlock()
+		p.reset()
 	}
+}
+
+//go:norace
+func (p *Pool) reset() {
+	simrt.RaceDisable()
+	defer simrt.RaceEnable()
+	p.mu.Lock()
+	p.free = nil
+	p.reg = false
+	p.mu.Unlock()
 }
 
 type Mutex struct {
